@@ -355,7 +355,9 @@ func c18Mixing(c *Case, req M, props map[string]interface{}, t trans, scripted b
 		}
 		return "gain"
 	}
-	if asS(c1["type"]) != typeOf(k1) || asS(c2["type"]) != typeOf(k2) || asS(ncr["type"]) != "gain" {
+	_ = typeOf
+	// a criterion declared without a type is echoed without one; what matters is whether it is reported as a cost criterion
+	if (asS(c1["type"]) == "cost") != k1.Cost || (asS(c2["type"]) == "cost") != k2.Cost || asS(ncr["type"]) != "gain" {
 		vs = append(vs, viol(c, "C18/mixing/report-types", "reported types %v/%v/%v", c1["type"], c2["type"], ncr["type"]))
 	}
 	for _, a := range prev.All() {
@@ -425,13 +427,23 @@ func c18Run(s *Shard) {
 	sampled := false
 	for _, method := range allMethods {
 		for _, subset := range []bool{false, true} {
-			for variant := 0; variant < 3; variant++ { // observed range, declared range, c1 strictly negative (observed)
+			for variant := 0; variant < 4; variant++ { // observed range, declared range, c1 strictly negative, types left out
 				root := rootRequest(method, subset, variant == 1)
 				if variant == 2 {
 					root = negativeVariant(root)
 				}
+				if variant == 3 {
+					if method == "choquetIntegral" {
+						continue // the Choquet parser requires the type to be spelled out
+					}
+					for _, c := range asL(root["criteria"]) {
+						if asS(asM(c)["type"]) == "gain" {
+							delete(asM(c), "type") // documented default: gain
+						}
+					}
+				}
 				for pi, pre := range prefixes {
-					if variant == 2 && pi > 0 && pi != 5 && pi != 13 {
+					if variant >= 2 && pi > 0 && pi != 5 && pi != 13 {
 						continue
 					}
 					if !s.Take() {
